@@ -1091,6 +1091,105 @@ def condition_table(rep, drv):
 # ----------------------------------------------------------------------------- entry points
 
 
+# ----------------------------------------------------------------------------- one object as source and destination
+
+SAME_KINDS = ["mem", "sub-mem", "wrap-mem", "cachedir-mem", "os", "sub-os"]
+
+
+def same_object_phase(rep, quick):
+    """src_fs IS dst_fs (one object; a plain filesystem, a SubFS view, a WrapFS / WrapCachedDir wrapper): the
+    'optimised same-filesystem path' of copy_file_internal (FS.copy / WrapFS.copy) instead of download/upload.
+    The Lean model takes two trees; here one tree carries both (S/... -> D/...), so this phase is decided by the
+    property's oracle alone: bytes, preserved times, the documented condition, the truthful return value,
+    bystanders and the source untouched."""
+    import fs.copy as C
+
+    T1, T2 = 1000000000, 981173106
+    srcf = {"S/a": (b"new-a", T1), "S/d/b": (b"bb", T2), "S/z": (b"", 0), "S/only": (b"only", T1 + 7)}
+    relations = {"absent": {}, "older": {"D/a": (b"old-a", T1 - 10), "D/d/b": (b"old-b", T2 - 1)},
+                 "newer": {"D/a": (b"old-a", T1 + 10), "D/d/b": (b"old-b", T2 + 1)},
+                 "equal": {"D/a": (b"old-a", T1), "D/d/b": (b"old-b", T2), "D/z": (b"zz", 0)}}
+    conds = [None, "always", "newer", "older", "exists", "not_exists"]
+    n = 0
+    for kind in SAME_KINDS[: (4 if quick else None)] if quick else SAME_KINDS:
+        for rname, dstf in relations.items():
+            for cond in conds:
+                for preserve in (True, False):
+                    for api in ("dir", "file"):
+                        for workers in ((0,) if (api == "file" or quick and cond not in (None, "newer")) else (0, 2)):
+                            b, times = make_backend(kind)
+                            f = b.fs
+                            # WrapCachedDir never invalidates its listing cache: the state is built and read back
+                            # through the wrapped filesystem, only the calls under test go through the wrapper
+                            g = f.delegate_fs() if kind.startswith("cachedir") else f
+                            try:
+                                for d in ("S/d", "S/e", "D/d", "D/keep"):
+                                    g.makedirs(d, recreate=True)
+                                allf = dict(srcf)
+                                allf.update(dstf)
+                                allf["D/keep/by"] = (b"bystander", T2 + 5)
+                                for q, (data, m) in allf.items():
+                                    g.writebytes(q, data)
+                                    g.settimes(q, modified=T(m))
+                                t0 = int(time.time()) - 5
+                                pre = {e[1]: e for e in (snapshot(g, t0) or [])}
+                                ret = {}
+                                try:
+                                    if api == "dir":
+                                        if cond is None:
+                                            C.copy_dir(f, "S", f, "D", workers=workers, preserve_time=preserve)
+                                        else:
+                                            C.copy_dir_if(f, "S", f, "D", cond, workers=workers, preserve_time=preserve)
+                                    else:
+                                        for q in sorted(srcf):
+                                            dq = "D" + q[1:]
+                                            if cond is None:
+                                                C.copy_file(f, q, f, dq, preserve_time=preserve)
+                                            else:
+                                                ret[q] = C.copy_file_if(f, q, f, dq, cond, preserve_time=preserve)
+                                    res = "ok"
+                                except Exception as e:  # noqa
+                                    res = "err %s %r" % (H.exc_name(e), str(e)[:120])
+                                post = {e[1]: e for e in (snapshot(g, t0) or [])}
+                            finally:
+                                b.close()
+                            n += 1
+                            rep.evaluations += 1
+                            rep.count("same/%s/%s" % (api, cond))
+                            rep.nontrivial("same", kind, rname, cond, preserve, api, workers)
+                            why = []
+                            if res != "ok":
+                                why.append("the call failed: " + res)
+                            for q, (data, m) in sorted(srcf.items()):
+                                dq = "D" + q[1:]
+                                at = ("F", dstf[dq][1]) if dq in dstf else None
+                                want = True if cond is None else documented_condition(cond, m, at)
+                                got = post.get(dq)
+                                if post.get(q) != pre.get(q):
+                                    why.append("source %s changed: %r -> %r" % (q, pre.get(q), post.get(q)))
+                                if want:
+                                    if got is None or got[0] != "F" or got[2] != data:
+                                        why.append("%s: condition %s holds but the destination holds %r, not the source bytes" % (dq, cond, got and got[2]))
+                                    elif preserve and times and got[3] != m:
+                                        why.append("%s: preserve_time is set, source mtime %r, destination mtime %r" % (dq, m, got[3]))
+                                elif got != pre.get(dq):
+                                    why.append("%s: condition %s does not hold (src %r, dst %r) but the destination changed: %r -> %r"
+                                               % (dq, cond, m, at, pre.get(dq), got))
+                                if q in ret and bool(ret[q]) != bool(want):
+                                    why.append("copy_file_if(%s, %s) returned %r, documented condition says %r" % (q, cond, ret[q], want))
+                            for q in pre:
+                                if q.startswith("D/keep") and post.get(q) != pre[q]:
+                                    why.append("bystander %s changed" % q)
+                            if why and res == "ok" or (res != "ok" and len(rep.violations) < 3):
+                                rep.violation({"same_object": {"kind": kind, "relation": rname, "cond": cond, "preserve": preserve,
+                                                               "api": api, "workers": workers}},
+                                              "%s on ONE %s object, S -> D (destination %s, condition %s, preserve_time=%s, workers=%d): %s"
+                                              % ("copy_dir[_if]" if api == "dir" else "copy_file[_if]", kind, rname, cond, preserve, workers,
+                                                 "; ".join(why[:3])),
+                                              found_input=True, signature="C19/same/%s/%s" % (api, why[0].split(":")[0][:30]))
+    rep.extra["same_object_runs"] = n
+
+
 def run(rep, tier, seed, deep=False):
     drv = vlib.Driver()
     rep.rule = (
@@ -1107,11 +1206,14 @@ def run(rep, tier, seed, deep=False):
         "listing order is unspecified: trees are compared sorted; the walker is breadth-first (search='depth' makes "
         "copy_structure / _mirror create children before parents and fail with ResourceNotFound — outside the model)",
         "directory modification times are not part of the replica",
-        "same-filesystem copies (src_fs is dst_fs) are covered by C05; here the two filesystems are distinct objects",
+        "same-object copies (src_fs is dst_fs: the optimised FS.copy / WrapFS.copy path) are outside the two-tree MODEL; a "
+        "directed grid (6 kinds of object x 4 time relations x 6 conditions x preserve_time x file/dir API x workers) is "
+        "decided by the property oracle alone; overlapping source and destination belong to C05",
         "worker-count independence is C09's; workers=4 is only sampled",
     ]
     try:
         condition_table(rep, drv)
+        same_object_phase(rep, tier == "quick")
         cases = gen_cases(tier, seed, deep)
         rep.programs = len(cases)
         sampled = []
@@ -1144,6 +1246,12 @@ def replay(rep, case):
     c = case.get("case", case)
     if c.get("op") == "necessary":
         condition_table(rep, drv)
+        return 1 if rep.violations else 0
+    if c.get("same_object"):
+        try:
+            same_object_phase(rep, False)
+        finally:
+            H.cleanup_scratch()
         return 1 if rep.violations else 0
     c = dict(c)
     c["src"] = tree_unjson(c["src"])
